@@ -23,10 +23,20 @@ def run(prog):
         if len(fns) != 1:
             raise CheckerError("SR: %s::serialize_helper not found" % mod)
         fn = fns[0]
+        # the row may be appended by a private helper of the serialiser (`alloc(.., table, nodes)`): look there
+        owner = fn
+        from . import canon
+        for g_ in canon.local_bodies(prog, fn, ok=lambda h: h.impl_self == fn.impl_self):
+            if g_.kind != "Closure" and any(cs.callee.name == "push" and strip(cs.args[0])[0] == "param" and
+                                            "Vec" in cs.callee.key() for cs in g_.terms.calls):
+                if not any(cs.callee.name == "push" and strip(cs.args[0]) == ("param", 3) for cs in fn.terms.calls):
+                    fn = g_
+                break
         te, cfg = fn.terms, fn.cfg
+        NP = next((strip(cs.args[0]) for cs in te.calls if cs.callee.name == "push" and strip(cs.args[0])[0] == "param" and "Vec" in cs.callee.key()), ("param", 3))
         kids = {g.npath for g in prog.lib_fns if g.npath.startswith(fn.npath + "::{closure")}
-        pushes = [cs for cs in te.calls if cs.callee.name == "push" and strip(cs.args[0]) == ("param", 3)]
-        lens = [cs for cs in te.calls if cs.callee.name == "len" and strip(cs.args[0]) == ("param", 3)]
+        pushes = [cs for cs in te.calls if cs.callee.name == "push" and strip(cs.args[0]) == NP]
+        lens = [cs for cs in te.calls if cs.callee.name == "len" and strip(cs.args[0]) == NP]
         recs = [cs for cs in te.calls if cs.callee.name == "serialize_helper" or
                 (cs.callee.name in ("map", "for_each", "collect") and any(isinstance(a, tuple) and a and a[0] == "agg" and a[1] == "closure"
                                                                            and a[2] in kids for a in cs.args))]
@@ -47,7 +57,7 @@ def run(prog):
                       not any(cfg.dominates(l.bb, r.bb) and cfg.dominates(r.bb, p.bb) for r in recs) and
                       not any(q is not p and cfg.dominates(l.bb, q.bb) and cfg.dominates(q.bb, p.bb) for q in pushes)]
             pre_form = False
-            if not after and before and ins and show(strip(ins[0].args[2])) == "len(arg3)":
+            if not after and before and ins and show(strip(ins[0].args[2])) == "len(arg%d)" % NP[1]:
                 pre_form = True
             if pre_form:
                 pass
@@ -63,7 +73,7 @@ def run(prog):
             else:
                 idx = strip(ins[0].args[2])
                 s_ = show(idx)
-                if not pre_form and not (s_.startswith("(len(arg3) Sub") and s_.rstrip(").0").endswith("1")):
+                if not pre_form and not (s_.startswith("(len(arg%d) Sub" % NP[1]) and s_.rstrip(").0").endswith("1")):
                     errs.append("the visited table stores %s for the node, not nodes.len() - 1 taken after the push: shared "
                                 "references then point at another row" % s_[:50])
                 ptrs = [a[1] for a in te.aggs if a[0] == ins[0].bb and isinstance(a[1], tuple) and a[1][0] == "agg" and a[1][3] == "Ptr"]
@@ -78,8 +88,8 @@ def run(prog):
                                     % (show(strip(t[4][0]))[:40], s_[:40]))
             out.append(inst("SR", key, VIOLATION if errs else OK, fn, p.line,
                             "; ".join(errs) if errs else "row number = nodes.len() - 1 after the push; table and pointer agree"))
-    if n < 3:
-        raise CheckerError("SR: only %d row pushes found (expected 3)" % n)
+    if n < 2:
+        raise CheckerError("SR: only %d row pushes found (expected one per serialiser at least)" % n)
     out += roots(prog)
     return out
 
